@@ -55,26 +55,12 @@ Theorem disable_removes_drivers : forall c s t x, is_enable c = false -> In t (s
 Proof. exact disable_removes_drivers_gen. Qed.
 Print Assumptions disable_removes_drivers.
 
-(* ===== BEGIN BLOCK F10 -- state of the code: mergetool.disable unsets merge.tool without looking at its value.
-   While the defect is present the claim "disable never alters settings that point at other tools" is proved for every
-   key except merge.tool, and refuted for merge.tool with a concrete witness (replayed on the implementation on every
-   run).  Once nbdime/vcs/git/mergetool.py guards the unset (see notes/C18-fix-1.diff), this block stops compiling;
-   replace it as described underneath. *)
-Theorem disable_preserves_foreign_except_merge_tool : forall c s sc k, is_enable c = false ->
+(* Disabling never alters or removes a setting that points at another tool: every key outside nbdime's own sections
+   (and other than the prompt switches) whose value is not "nbdime" keeps its value, in both scopes; attributes files
+   are not touched.  (Before the fix of finding F10 this held for every key except merge.tool.) *)
+Theorem disable_preserves_foreign : forall c s sc k, is_enable c = false ->
   let s' := final (run tbl c s) in
-  (protected k = true -> k <> merge_tool_key -> get (cfg_of sc s) k <> Some nbdime_value ->
-     get (cfg_of sc s') k = get (cfg_of sc s) k) /\
+  (protected k = true -> get (cfg_of sc s) k <> Some nbdime_value -> get (cfg_of sc s') k = get (cfg_of sc s) k) /\
   att_of sc s' = att_of sc s.
-Proof. exact disable_preserves_foreign_except_merge_tool_gen. Qed.
-Print Assumptions disable_preserves_foreign_except_merge_tool.
-
-Theorem mergetool_disable_alters_foreign_refuted :
-  exists s v, protected merge_tool_key = true /\ v <> nbdime_value /\
-              get (cfg_of Local s) merge_tool_key = Some v /\
-              get (cfg_of Local (final (run tbl (One MergeTool false Local false) s))) merge_tool_key = None.
-Proof. exact disable_foreign_verdict_neg. Qed.
-Print Assumptions mergetool_disable_alters_foreign_refuted.
-(* ===== END BLOCK F10 *)
-(* Replacement for BLOCK F10 once the fix is in /repo (kept out of this file so that tools counting theorems are not
-   confused): notes/C18-Props-after-fix.v is this file with the block swapped for the unconditional claim, which is
-   proved by Sys/GitCfgProofs.disable_foreign_verdict_pos;  cp notes/C18-Props-after-fix.v coq/Props/C18.v  *)
+Proof. exact disable_foreign_verdict_pos. Qed.
+Print Assumptions disable_preserves_foreign.
